@@ -9,8 +9,10 @@
 (b) faults: a failure injected at each kernel call of watch construction (inotify_init, pipe, each
     inotify_add_watch of a 3-directory recursive tree) x ENOENT/ENOSPC/EMFILE/EACCES, at emitter and at
     observer level; outcome compared with the extracted Model/Ledger.v.
-(c) real kernel, real threads (separate subprocess): /proc/self/fd and threading.enumerate() over
-    cycles of schedule/unschedule/start/stop including failing ones.
+(c) real kernel, real threads (separate subprocess, no scheduler): /proc/self/fd and threading.enumerate()
+    over cycles of schedule/unschedule/start/stop including failing ones (missing path; an
+    inotify_add_watch failure injected at every position of a 3-directory tree x 4 errnos; root deleted =
+    the emitter's own shutdown; Inotify closed before its first read).
 Oracle (the property text): no use of a closed descriptor, no double close; after the buffer thread
 finished and close()/stop()+join() returned no descriptor of the watch is open and no library thread is
 alive; after a failed schedule()/start() likewise; counts return to their previous values.
@@ -814,6 +816,19 @@ out = []
 ob = Observer(); ob.start()
 kinds = ["sched-unsched", "sched-missing", "start-stop", "start-missing", "sched-events-unsched", "root-deleted",
          "sched-file-missing-parent", "inotify-close-unread", "buffer-create-close"]
+# an inotify_add_watch failure injected at every position of the 3-directory tree (the descriptors are the real kernel's)
+import ctypes, errno as _errno
+from watchdog.observers import inotify_c
+_real_add = inotify_c.inotify_add_watch
+class Inject:
+    k = None; e = 0; n = 0
+    def __call__(self, fd, path, mask):
+        i = self.n; self.n += 1
+        if self.k is not None and i == self.k:
+            ctypes.set_errno(self.e); return -1
+        return _real_add(fd, path, mask)
+inj = Inject(); inotify_c.inotify_add_watch = inj
+kinds += ["inject:add%d:%s" % (k, e) for k in range(3) for e in ("ENOENT", "ENOSPC", "EMFILE", "EACCES")]
 try:
     for i in range(cycles):
         kind = kinds[i % len(kinds)] if i < 2 * len(kinds) else rng.choice(kinds)
@@ -840,6 +855,19 @@ try:
                     open(os.path.join(d, "a", "f%d" % j), "w").close()
                 os.mkdir(os.path.join(d, "newdir"))
                 ob.unschedule(w)
+            elif kind.startswith("inject:"):
+                _, pos, en = kind.split(":")
+                d = tree(); inj.k, inj.e, inj.n = int(pos[3:]), getattr(_errno, en), 0
+                try:
+                    w = ob.schedule(h, d, recursive=True)
+                except OSError as e:
+                    err = "OSError:" + _errno.errorcode.get(e.errno, str(e.errno))
+                else:
+                    err = "built"
+                    inj.k = None
+                    ob.unschedule(w)
+                finally:
+                    inj.k = None
             elif kind == "inotify-close-unread":
                 from watchdog.observers.inotify_c import Inotify
                 d = tree(); ino = Inotify(os.fsencode(d), recursive=True); ino.close()
@@ -914,7 +942,8 @@ def run(ctx) -> Result:
                 "distinct = (scenario, operation log); non-trivial = the closing side takes the instance lock strictly between "
                 "the buffer thread's first and last logged operation.  (b) every kernel call of the construction of a recursive "
                 "watch on 3 directories x 4 errnos (+ double faults) at emitter / schedule() / start() level; non-trivial = at "
-                "least one fault.  (c) real-kernel cycles, distinct = cycle kind")
+                "least one fault.  (c) real-kernel cycles (30 quick / 500 thorough) over 21 cycle kinds "
+                "incl. an add_watch failure injected at each of the 3 positions x 4 errnos; distinct = cycle kind")
     setup()
     base, root = make_root()
     try:
